@@ -8,7 +8,7 @@ def fn_at(l):
     for i in range(l-1,-1,-1):
         m=fnre.match(src[i])
         if m: return m.group(1)
-p=subprocess.run(['verus','%s.rs'%unit,'--multiple-errors','5','--error-format=json']+extra,cwd='/verif/gen',capture_output=True,text=True)
+p=subprocess.run(['verus','%s.rs'%unit,'--multiple-errors','30','--error-format=json']+extra,cwd='/verif/gen',capture_output=True,text=True)
 for line in p.stderr.split('\n'):
     line=line.strip()
     if not line.startswith('{'): continue
